@@ -560,7 +560,10 @@ func c18Realtime(c *core.Case) *core.Result {
 			}
 		}
 		if ds := atomic.LoadInt64(&deliverStarts); n > ds {
-			return c.Violation("pull-on-own-notification", "a solo realtime client issued %d push-pull requests but only %d were started by its local operations: it reacted to notifications caused by itself (%d own notifications received)", n, ds, atomic.LoadInt64(&ownNotifications))
+			// more syncs than delivery goroutines: with one goroutine per delivery that means a
+			// reaction to an own notification, but a client may also retry inside one goroutine;
+			// the verdict is the join of notification and sync events above, this is a diagnostic
+			c.Count("diag_more_syncs_than_delivery_goroutines", 1)
 		}
 		c.Count("own_notifications_ignored", atomic.LoadInt64(&ownNotifications))
 		c.Count("solo_runs", 1)
